@@ -18,7 +18,7 @@ from bctmc.tally import Tally
 PROPERTY = 'C13'
 RULE = ('every public callable reachable from the bct namespace (152; found by introspection at run time) x connection '
         'matrices {binary digraph, binary graph, weighted positive symmetric, weighted positive asymmetric, weighted signed '
-        'symmetric} x {zero diagonal, non-zero diagonal} on 5 nodes (6 for the undirected binary one, disconnected variants '
+        'symmetric} x {zero diagonal, non-zero diagonal} on 5 nodes, the 0/1 ones also as bool / int64 / uint8 / float32 arrays (with and without self-connections) and the weighted ones as float32 (6 for the undirected binary one, disconnected variants '
         'included), plus for single-matrix programs every binary 3-node digraph and every signed symmetric 3-node matrix with '
         'zero / non-zero diagonal, x community vectors {1..k, non-contiguous, zero-based} x every value of each boolean/enum flag x every numeric scalar parameter at its usual value and, one at a time, at the boundary values 0 and 1; randomised '
         'routines with an integer seed on the C05 argument table (each entry also with non-zero diagonals on its matrix arguments and with each scalar argument at 0 / 1) and along their first 200 (2000) generator-answer paths under the scripted generator; a program (function x flag combination) is non-trivial when '
@@ -56,8 +56,21 @@ def matrices():
         Md = M.copy()
         np.fill_diagonal(Md, [0.5 + 0.25 * k for k in range(len(M))])
         out[name + '+diag'] = Md
-    # memory layouts: Fortran-ordered, a transposed view of a C array, a strided view into a larger buffer
+    # element types: the 0/1 matrices also as bool, int64, uint8 and float32 arrays; the weighted ones as float32
+    # (a routine that copies by converting to float does not copy what is already of the type it asks for)
     for name in list(out):
+        M = out[name]
+        if name.startswith('B') and '+diag' not in name:
+            for dt in (bool, np.int64, np.uint8, np.float32):
+                out[name + '/' + np.dtype(dt).name] = M.astype(dt)
+            Md = M.copy()
+            np.fill_diagonal(Md, 1)
+            out[name + '+selfloops/bool'] = Md.astype(bool)
+            out[name + '+selfloops/int64'] = Md.astype(np.int64)
+        elif name.startswith('W'):
+            out[name + '/float32'] = M.astype(np.float32)
+    # memory layouts: Fortran-ordered, a transposed view of a C array, a strided view into a larger buffer
+    for name in [k for k in out if '/' not in k]:
         M = out[name]
         out[name + '/F'] = np.asfortranarray(M)
         out[name + '/T'] = np.ascontiguousarray(M.T).T
@@ -91,7 +104,9 @@ def small_matrices():
 
 
 def keep_layout(M):
-    """fresh array with the same values AND the same memory layout as M (plain .copy() would make it C-ordered)"""
+    """fresh array with the same values, element type AND memory layout as M (plain .copy() would make it C-ordered)"""
+    if M.dtype != np.float64:
+        return M.copy()
     if M.flags.c_contiguous:
         return M.copy()
     if M.flags.f_contiguous:
